@@ -78,6 +78,9 @@ def name_call(E, n, st, name):
                 sq, v = E.seq_of(s1, o); yield s1, SV(sq.len(v), INT)
             elif o.ty is NODE:
                 yield s1, SV(z3.If(Node.is_item(o.v), 2, 1), INT)
+            elif o.ty is STR:
+                E.str_repeat(E.strconst("."), z3.IntVal(0))
+                yield s1, SV(z3.Function("str_len", Str, I)(o.v), INT)
             elif isinstance(o.ty, TupT):
                 yield s1, SV(z3.IntVal(len(o.ty.items)), INT)
             else:
@@ -204,6 +207,8 @@ def attr_call(E, n, st):
                 c = reg.find_method(recv.ty.cls, f.attr)
                 if c is not None:
                     yield from apply_contract(E, c, recv, args, kw, s2, n); continue
+            if isinstance(recv.ty, PathT) and f.attr == "split" and len(args) == 1 and args[0].py == ".":
+                yield s2, SV(recv.v, SeqT(NAME)); continue          # trusted: components of a dotted name
             if ct is not None or isinstance(recv.ty, (SeqT,)):
                 yield from container_method(E, n, s2, recv, f.attr, args, kw); continue
             if recv.ty is STR and ("Path." + f.attr) in reg.contracts:
@@ -482,9 +487,15 @@ def callee_defaults(E, c):
 def apply_contract(E, c, recv, args, kw, st, n):
     """assert requires; havoc modifies; assume ensures (normal edge) / raises[T] (one edge per declared T)."""
     params = bind_params(E, c, recv, args, kw, n, st)
-    for nm, val in c.static.items():
-        if params[nm].py != val:
-            raise Unsupported("%s is only specified for %s == %r" % (c.qual, nm, val))
+    def matches(cc, pr):
+        return all(pr[nm].py is not None and pr[nm].py == val for nm, val in cc.static.items())
+    if not matches(c, params):
+        for alt in getattr(c, "variants", []):
+            pa = bind_params(E, alt, recv, args, kw, n, st)
+            if matches(alt, pa):
+                c, params = alt, pa; break
+        else:
+            raise Unsupported("%s is not specified for these static arguments (line %s)" % (c.qual, getattr(n, "lineno", "?")))
     pre = st.copy(); pre.loc = dict(params)           # callee's view of the pre-state
     ev_pre = SpecEval(E, pre, pre, {})
     line = getattr(n, "lineno", 0)
@@ -518,6 +529,7 @@ def apply_contract(E, c, recv, args, kw, st, n):
         s2 = post_state("ret")
         rty = E.ptype(c.returns) if c.returns else NONE
         res = SV(NULL, NONE) if rty is NONE else E.fresh_sv("ret_" + c.name, rty)
+        if isinstance(rty, SeqT) and not isinstance(rty, PathT): s2.pc.append(rty.len(res.v) >= 0)
         view = s2.copy(); view.loc = dict(params)
         ev = SpecEval(E, view, pre, {"result": res})
         for cl in c.ensures:
